@@ -55,6 +55,15 @@ add("C27", "TLC exhaustive on OptimizeKLConfig.tla (one and two calls) + TLC-pre
     "recorded from outside and validated by RandomCtxTrace.tla.",
     TRUST + "resume and initial_index are exercised with a preceding call that produced the state they continue.")
 
+add("C24", "TLC exhaustive on JaxVIResume.tla (all crash points, <=2 crashes) + SIGKILL injection at every recorded file-system effect of the real driver + trace validation of the crashed-and-resumed histories",
+    "The persistence protocol of nifty.re.optimize_kl is specified with one action per file-system effect, Crash in every state and Restart(resume) "
+    "(JaxVIResume.tla); TLC checks Resumable, SameResult, AtMostOneLost and LastComplete for every crash point of a 3-iteration run with up to two crashes "
+    "and refutes the in-place protocol of the pinned snapshot. The real driver runs in a child process under a file-system interposer: every recorded "
+    "effect (open, write, close, replace, makedirs) is a crash point at which the child is SIGKILLed before / after / mid-write, then restarted with "
+    "resume=True and compared bit for bit with the uninterrupted run (thorough: all points, two sample modes, double crashes; quick: the points around "
+    "last.pkl plus a seeded sample). All histories are validated against JaxVIResumeTrace.tla.",
+    TRUST + "crash = process kill; fsync/power-loss durability is outside the model.", )
+
 
 def main():
     props = [json.loads(l) for l in open(os.path.join(HERE, "properties.jsonl"))]
